@@ -1,7 +1,8 @@
 """Sidecar contracts for the two generate_instances functions and the create_instance text assemblers (C08 / C09 / C12: which list is
-written where).  create_instance is NOT verified (string assembly; bounded stand-in): its contract is a precondition only - the
-well-formedness of everything it is asked to write - so verifying generate_instances proves that precondition at the call site for
-every accepted argument record: every generated instance is handed to the writer well-formed."""
+written where).  create_instance is verified over the lexical view of the text it assembles (pyvc/models_text.py: lines of blank-separated
+tokens, the view the reader has of the file): header, one numbered line per agent with exactly the numbers and the bracketed list it was
+handed, a blank line, then the parameter block.  Its precondition is the well-formedness of everything it is asked to write, so verifying
+generate_instances proves that precondition at the call site for every accepted argument record."""
 SPA = 'generator_spa:Generator_spa.'
 HSH = 'generator_ha_sm_hr:Generator_ha_sm_hr.'
 LL = ('list', ('list', 'int')); L = ('list', 'int')
@@ -17,10 +18,46 @@ FIRST_SIDE = ("len(%(F)s) == n1 and forall(i, 0, n1, dupfree(%(F)s[i]) and foral
               " and len(%(T)s) == n1 and forall(i, 0, n1, len(%(T)s[i]) == len(%(F)s[i]))")
 QUOTAS = "len(%(lo)s) == %(n)s and len(%(hi)s) == %(n)s and forall(j, 0, %(n)s, 0 <= %(lo)s[j] and %(lo)s[j] <= %(hi)s[j])"
 
+# ---- the written text seen through the lexical layer (pyvc/models_text.py): text_len(T) lines, text_toks(T, i) the tokens of line i
+def plain(T, i, q, val): return "kind(text_toks(%s, %s)[%s]) == 0 and value(text_toks(%s, %s)[%s]) == %s" % (T, i, q, T, i, q, val)
+TEXT_DEFS = {
+ # tokens off.. of line i are the bracketed rendering of list L under the tie decisions D (the tie writer's postcondition, C13); stated by token position q
+ 'list_written': (['T', 'i', 'off', 'L', 'D'], 'len(text_toks(T, i)) == off + len(L) and forall(q, off, len(text_toks(T, i)), value(text_toks(T, i)[q]) == L[q - off]'
+                                               ' and kind(text_toks(T, i)[q]) == spec_kind(D, q - off, len(L)), text_toks(T, i)[q])'),
+ 'fields2': (['T', 'i', 'a', 'b'], plain('T', 'i', '0', 'a') + ' and ' + plain('T', 'i', '1', 'b')),
+ 'fields3': (['T', 'i', 'a', 'b', 'c'], plain('T', 'i', '0', 'a') + ' and ' + plain('T', 'i', '1', 'b') + ' and ' + plain('T', 'i', '2', 'c')),
+ 'fields4': (['T', 'i', 'a', 'b', 'c', 'd'], plain('T', 'i', '0', 'a') + ' and ' + plain('T', 'i', '1', 'b') + ' and ' + plain('T', 'i', '2', 'c') + ' and ' + plain('T', 'i', '3', 'd')),
+}
+# every line predicate is stated by LINE NUMBER ln (the agent written there is ln - <first line of its section>), so that a fact about the
+# file's line ln instantiates the writer's postcondition by matching, without arithmetic in the trigger
+HSH_DEFS = dict(TEXT_DEFS,
+ header=(['T'], 'len(text_toks(T, 0)) == 2 and fields2(T, 0, n1, n2) and not text_colon(T, 0)'),
+ res_line=(['T', 'ln'], plain('T', 'ln', '0', 'ln') + ' and list_written(T, ln, 1, pref_lists_residents[ln - 1], res_ties[ln - 1])'),
+ hosp_line=(['T', 'ln'], 'fields3(T, ln, ln - n1, lower_quotas[ln - n1 - 1], upper_quotas[ln - n1 - 1])'
+                         ' and ite(len(pref_lists_hospitals) == 0, len(text_toks(T, ln)) == 3, list_written(T, ln, 3, pref_lists_hospitals[ln - n1 - 1], hosp_ties[ln - n1 - 1]))'),
+ res_lines=(['T', 'k'], 'forall(ln, 1, 1 + k, res_line(T, ln), text_toks(T, ln), len(text_toks(T, ln)))'),
+ hosp_lines=(['T', 'k'], 'forall(ln, 1 + n1, 1 + n1 + k, hosp_line(T, ln), text_toks(T, ln), len(text_toks(T, ln)))'))
+SPA_DEFS = dict(TEXT_DEFS,
+ header=(['T'], 'len(text_toks(T, 0)) == 3 and fields3(T, 0, n1, n2, n3) and not text_colon(T, 0)'),
+ st_line=(['T', 'ln'], plain('T', 'ln', '0', 'ln') + ' and list_written(T, ln, 1, pref_lists_students[ln - 1], st_ties[ln - 1])'),
+ proj_line=(['T', 'ln'], 'len(text_toks(T, ln)) == 4 and fields4(T, ln, ln - n1, lower_quotas[ln - n1 - 1], upper_quotas[ln - n1 - 1], project_lecturers[ln - n1 - 1])'),
+ lec_line=(['T', 'ln'], 'fields4(T, ln, ln - n1 - n2, lec_lower_quotas[ln - n1 - n2 - 1], lec_targets[ln - n1 - n2 - 1], lec_upper_quotas[ln - n1 - n2 - 1])'
+                        ' and ite(len(pref_lists_lecturers) == 0, len(text_toks(T, ln)) == 4, list_written(T, ln, 4, pref_lists_lecturers[ln - n1 - n2 - 1], lec_ties[ln - n1 - n2 - 1]))'),
+ st_lines=(['T', 'k'], 'forall(ln, 1, 1 + k, st_line(T, ln), text_toks(T, ln), len(text_toks(T, ln)))'),
+ proj_lines=(['T', 'k'], 'forall(ln, 1 + n1, 1 + n1 + k, proj_line(T, ln), text_toks(T, ln), len(text_toks(T, ln)))'),
+ lec_lines=(['T', 'k'], 'forall(ln, 1 + n1 + n2, 1 + n1 + n2 + k, lec_line(T, ln), text_toks(T, ln), len(text_toks(T, ln)))'))
+
 CONTRACTS = {
  SPA + 'create_instance_info': dict(pure_text=True), HSH + 'create_instance_info': dict(pure_text=True),
  SPA + 'create_instance': dict(
-    unverified=True,          # precondition-only contract: the body (text assembly) is covered by the bounded stand-in
+    locals={'instance_string': 'text'}, defs=SPA_DEFS,
+    loops={0: dict(invariant=[('one-line-per-student-so-far', 'text_len(instance_string) == 1 + _k'), ('header', 'header(instance_string)'),
+                              ('student-lines-so-far', 'st_lines(instance_string, _k)')]),
+           1: dict(invariant=[('one-line-per-project-so-far', 'text_len(instance_string) == 1 + n1 + _k'), ('header', 'header(instance_string)'),
+                              ('student-lines', 'st_lines(instance_string, n1)'), ('project-lines-so-far', 'proj_lines(instance_string, _k)')]),
+           2: dict(invariant=[('one-line-per-lecturer-so-far', 'text_len(instance_string) == 1 + n1 + n2 + _k'), ('header', 'header(instance_string)'),
+                              ('student-lines', 'st_lines(instance_string, n1)'), ('project-lines', 'proj_lines(instance_string, n2)'),
+                              ('lecturer-lines-so-far', 'lec_lines(instance_string, _k)')])},
     params={'n1': 'int', 'n2': 'int', 'n3': 'int', 'pref_lists_students': LL, 'st_ties': LL, 'project_lecturers': L, 'lower_quotas': L, 'upper_quotas': L,
             'pref_lists_lecturers': LL, 'lec_ties': LL, 'lec_lower_quotas': L, 'lec_targets': L, 'lec_upper_quotas': L, 'instance_info': ('str', 'info')},
     theory=['listsets'],
@@ -33,9 +70,18 @@ CONTRACTS = {
               ('lecturer-lists-rank-exactly-the-students-who-rank-one-of-their-projects', 'len(pref_lists_lecturers) == 0 or (len(pref_lists_lecturers) == n3 and len(lec_ties) == n3'
                ' and forall(k, 0, n3, dupfree(pref_lists_lecturers[k]) and len(lec_ties[k]) == len(pref_lists_lecturers[k])'
                ' and forall(v, (v in elems(pref_lists_lecturers[k])) == (1 <= v and v <= n1 and exists(proj, proj in elems(pref_lists_students[v - 1]) and project_lecturers[proj - 1] == k + 1)))))')],
-    returns=('str', 'instance')),
+    returns='text',
+    ensures=[('header-line-carries-the-three-counts', 'header(result)'),
+             ('one-numbered-line-per-student-with-exactly-the-list-handed-over', 'st_lines(result, n1)'),
+             ('one-numbered-line-per-project-with-quotas-and-lecturer', 'proj_lines(result, n2)'),
+             ('one-numbered-line-per-lecturer-with-quotas-target-and-list-only-when-given', 'lec_lines(result, n3)'),
+             ('blank-line-then-the-parameter-block', 'text_len(result) >= 2 + n1 + n2 + n3 and len(text_toks(result, 1 + n1 + n2 + n3)) == 0')]),
  HSH + 'create_instance': dict(
-    unverified=True,
+    locals={'instance_string': 'text', 'string_pref_list': ('list', 'tok')}, defs=HSH_DEFS,
+    loops={0: dict(invariant=[('one-line-per-first-side-agent-so-far', 'text_len(instance_string) == 1 + _k'), ('header', 'header(instance_string)'),
+                              ('first-side-lines-so-far', 'res_lines(instance_string, _k)')]),
+           1: dict(invariant=[('one-line-per-second-side-agent-so-far', 'text_len(instance_string) == 1 + n1 + _k'), ('header', 'header(instance_string)'),
+                              ('first-side-lines', 'res_lines(instance_string, n1)'), ('second-side-lines-so-far', 'hosp_lines(instance_string, _k)')])},
     params={'n1': 'int', 'n2': 'int', 'pref_lists_residents': LL, 'res_ties': LL, 'pref_lists_hospitals': LL, 'hosp_ties': LL, 'lower_quotas': L, 'upper_quotas': L,
             'instance_info': ('str', 'info')},
     theory=['listsets'],
@@ -44,7 +90,11 @@ CONTRACTS = {
               ('second-side-lists-rank-exactly-those-who-rank-them', 'len(pref_lists_hospitals) == 0 or (len(pref_lists_hospitals) == n2 and len(hosp_ties) == n2'
                ' and forall(h, 0, n2, dupfree(pref_lists_hospitals[h]) and len(hosp_ties[h]) == len(pref_lists_hospitals[h])'
                ' and forall(v, (v in elems(pref_lists_hospitals[h])) == (1 <= v and v <= n1 and (h + 1) in elems(pref_lists_residents[v - 1])))))')],
-    returns=('str', 'instance')),
+    returns='text',
+    ensures=[('header-line-carries-the-two-counts', 'header(result)'),
+             ('one-numbered-line-per-first-side-agent-with-exactly-the-list-handed-over', 'res_lines(result, n1)'),
+             ('one-numbered-line-per-second-side-agent-with-quotas-and-list-only-when-given', 'hosp_lines(result, n2)'),
+             ('blank-line-then-the-parameter-block', 'text_len(result) >= 2 + n1 + n2 and len(text_toks(result, 1 + n1 + n2)) == 0')]),
 
  SPA + 'generate_instances': dict(
     params={'args': ('obj', 'GenArgs')}, self_fields={}, theory=['listsets'],
